@@ -206,6 +206,9 @@ func GenFuzzFamily(w *Writer, r *Rng, t Tier) error {
 		if i%16 == 9 {
 			sel = 8
 		}
+		if i%4 == 3 {
+			sel = 9
+		}
 		switch sel {
 		case 0, 1, 2:
 			kind = "expr-tokens"
@@ -252,6 +255,41 @@ func GenFuzzFamily(w *Writer, r *Rng, t Tier) error {
 				c, err := xsel.ReadJson(strings.NewReader(text))
 				return nilCheck(c == nil, err)
 			})
+		case 9:
+			// well-typed queries (type-directed generator, boundary numbers as variables) must never
+			// fail with the internal "xpath query panic" error
+			kind = "well-typed-query"
+			d := dumps[cr.Intn(len(dumps))]
+			env := GenEnv(cr, d, false)
+			g := &ExprGen{R: cr, Cfg: DefaultGenCfg(), Env: env, D: d, Cur: 0}
+			g.Cfg.Names = []string{"a", "b", "r"}
+			g.Cfg.Attrs = []string{"k"}
+			g.Cfg.Numbers = []string{"0", "1", "2", "3", "1.5", "10", "0.5", "100"}
+			var e Expr
+			switch cr.Intn(4) {
+			case 0:
+				num := func() Expr {
+					n := Expr(NumLit{Text: Pick(cr, []string{"0", "1", "2", "3", "4", "1.5", "2.5", "0.5", "10", "100"})})
+					switch cr.Intn(5) {
+					case 0:
+						return Neg{E: n}
+					case 1:
+						return Var{Name: Pick(cr, []string{"n", "m"})}
+					}
+					return n
+				}
+				args := []Expr{Lit{S: Pick(cr, []string{"12345", "abcdef", "é𝄞xyz", "ab", "", "a"})}, num()}
+				if cr.Chance(3, 4) {
+					args = append(args, num())
+				}
+				e = Call{Base: Ctx{}, Name: "substring", Args: args}
+			case 1:
+				e = g.Num(2)
+			default:
+				e = g.Any(2)
+			}
+			text = Render(e, &Style{R: cr, Abbrev: true})
+			got = RunExec(d, cr.Intn(len(d.Cursors)), text, env)
 		case 8:
 			kind = "unmarshal-target"
 			text, got = fuzzUnmarshalTarget(cr, dumps[0])
